@@ -48,6 +48,7 @@ class History:
         self.ops = []
         self.failed = False
         self.target = rng.choice([2, 3, 5, 8])
+        self.stale = set()       # transports whose pings stopped long ago
 
     # ---------------------------------------------------------------- gen
     def some_sid(self, live_bias=0.85):
@@ -77,8 +78,17 @@ class History:
             self.nT += 1
             self.open_T.append(self.nT)
             return ['open', self.nT]
-        if len(live) < self.target or r < 0.12:
+        if r > 0.975 and len(self.open_T) > 1:
             T = rng.choice(self.open_T)
+            if T not in self.stale:
+                return ['stale', T]
+        if len(live) < self.target or r < 0.12:
+            cand = [t for t in self.open_T if t not in self.stale]
+            if not cand:
+                self.nT += 1
+                self.open_T.append(self.nT)
+                return ['open', self.nT]
+            T = rng.choice(cand)
             ns = rng.choice(self.served + (['/zz'] if rng.random() < 0.1
                                            else []))
             return ['connect', T, ns, None]
@@ -105,7 +115,7 @@ class History:
             return ['close_room', room, ns]
         if r < 0.51:
             sid, ns = self.some_sid(0.95)
-            if sid in self.owner:
+            if sid in self.owner and self.owner[sid][0] not in self.stale:
                 return ['cdisc', self.owner[sid][0], ns]
         if r < 0.54:
             sid, ns = self.some_sid(0.9)
@@ -192,6 +202,9 @@ class History:
                              res)
         if kind == 'open':
             pass
+        elif kind == 'stale':
+            self.stale.add(op[1])
+            ctx.count('transports_gone_stale')
         elif kind == 'connect':
             T, ns = op[1], op[2]
             already = any(o == (T, ns) for s, o in self.owner.items()
@@ -249,9 +262,14 @@ class History:
             if res.get('exc'):
                 return self.fail('disconnect() raised', res)
             if m.connected(op[1], op[2]):
+                T = self.owner[op[1]][0]
                 m.disconnect(op[1], op[2])
                 self.dead.append((op[1], op[2]))
                 ctx.count('disconnects')
+                if T in self.stale:
+                    # the DISCONNECT packet is the send that finds the
+                    # transport dead: all of its namespaces end
+                    self.kill_transport(T)
         elif kind == 'lose':
             T = op[1]
             for s, o in list(self.owner.items()):
@@ -260,6 +278,7 @@ class History:
                     self.dead.append((s, o[1]))
             if T in self.open_T:
                 self.open_T.remove(T)
+            self.stale.discard(T)
             ctx.count('transport_losses')
         elif kind == 'emit':
             token, to, skip, ens, cb = op[1:6]
@@ -267,8 +286,17 @@ class History:
             if res.get('exc'):
                 return self.fail('emit raised %s' % res['exc'], res)
             want = collections.Counter()
+            died = set()
             for s in m.recipients(ns, to, skip):
+                if self.owner[s][0] in self.stale:
+                    # found dead by this very send: not delivered, and the
+                    # whole transport is disconnected from inside the emit
+                    died.add(self.owner[s][0])
+                    continue
                 want[('tok%d' % token, self.owner[s][0], ns)] += 1
+            for T in sorted(died):
+                self.kill_transport(T)
+                ctx.count('clients_found_dead_during_emit')
             ctx.count('emits_judged')
             ctx.count('deliveries_checked', sum(tokens.values()))
             if tokens != want:
@@ -316,6 +344,16 @@ class History:
                         sid, ns, sorted(got, key=repr),
                         sorted(m.rooms(sid, ns), key=repr)), res)
 
+    def kill_transport(self, T):
+        m = self.m
+        for s, o in list(self.owner.items()):
+            if o[0] == T and m.connected(s, o[1]):
+                m.disconnect(s, o[1])
+                self.dead.append((s, o[1]))
+        if T in self.open_T:
+            self.open_T.remove(T)
+        self.stale.discard(T)
+
     def close(self):
         self.r.close()
 
@@ -354,6 +392,7 @@ def run(ctx):
     ctx.require('rooms_queries', 50)
     ctx.require('room_ops', 20)
     ctx.require('disconnects', 5)
+    ctx.require('clients_found_dead_during_emit', 3)
     k = 0
     while not ctx.out_of_time() and not ctx.too_many_violations():
         run_case(ctx, k)
